@@ -67,6 +67,7 @@ fn crafted(base: &SectionHeader, flen: u64) -> Vec<SectionHeader> {
         mk(flen + 9, 0, abi::SHT_NOTE, 0, 4),           // empty, strictly past EOF, typed view
         mk(flen - 1, 2, abi::SHT_STRTAB, 0, 1),         // starts inside, ends outside
         mk(a, n, abi::SHT_NOBITS, 0, 1),                // NOBITS over real bytes
+        mk(a, n, abi::SHT_NOBITS, abi::SHF_COMPRESSED as u64, 1), // NOBITS that also claims to be compressed
         mk(a, u64::MAX, abi::SHT_PROGBITS, 0, 1),       // overflowing size
         mk(a, n, abi::SHT_PROGBITS, abi::SHF_COMPRESSED as u64, 1), // compressed (scoped out of C07)
     ]
@@ -159,7 +160,7 @@ fn s_small_impl(enc: Enc, full: bool) -> Image {
         // keep the crafted headers that create distinct cache keys: shared start, shared end, same range
         // under other types, empty, EOF-touching, beyond EOF, compressed
         let nfile = 6; // null + 4 sections + .shstrtab
-        let keep = [0usize, 1, 2, 3, 4, 5, 6, 8, 9, 14];
+        let keep = [0usize, 1, 2, 3, 4, 5, 6, 8, 9, 12, 15];
         let crafted: Vec<SectionHeader> = keep.iter().map(|k| img.shdr_pool[nfile + k]).collect();
         img.shdr_pool.truncate(nfile);
         img.shdr_pool.extend(crafted);
